@@ -146,6 +146,25 @@ type c20Result struct {
 
 const c20Watchdog = 10 * time.Second
 
+// c20Calibrate times a fixed piece of work that has nothing to do with the
+// parser: four million small appends, roughly what the heaviest legal input
+// (expansions up to the total budget, about a second on an idle core) asks
+// for. When the watchdog expires the allowance is stretched by how slow the
+// machine is right now, so that a loaded machine is not reported as a hang.
+func c20Calibrate() time.Duration {
+	t0 := time.Now()
+	var keep [][]string
+	for i := 0; i < 64; i++ {
+		var a []string
+		for j := 0; j < 65536; j++ {
+			a = append(a, "x")
+		}
+		keep = append(keep, a)
+	}
+	_ = keep
+	return time.Since(t0)
+}
+
 // c20Read runs Read under a watchdog; ok=false means it did not return.
 func c20Read(src string) (res c20Result, ok bool) {
 	ch := make(chan c20Result, 1)
@@ -160,12 +179,27 @@ func c20Read(src string) (res c20Result, ok bool) {
 		}()
 		r.nodes, r.err = Read(strings.NewReader(src), "verif.conf")
 	}()
+	t0 := time.Now()
 	select {
 	case r := <-ch:
 		return r, true
 	case <-time.After(c20Watchdog):
-		return c20Result{}, false
 	}
+	// Idle, the calibration takes about 0.1 s and the heaviest legal input
+	// about 1 s: the allowance of 100 calibrations keeps the ratio of the
+	// 10 s limit. Bounded by 5 minutes.
+	allow := 100 * c20Calibrate()
+	if allow > 5*time.Minute {
+		allow = 5 * time.Minute
+	}
+	if rest := allow - time.Since(t0); rest > 0 {
+		select {
+		case r := <-ch:
+			return r, true
+		case <-time.After(rest):
+		}
+	}
+	return c20Result{}, false
 }
 
 func c20CheckTree(src string, ns []Node, defined map[string]bool) (vs []ev.V) {
